@@ -321,7 +321,8 @@ def layout(ctx: Any) -> List[Ob]:
             if isinstance(st, ast.AugAssign) and self_attr(st.target, me_) == 'offset':
                 okc, v2 = prog.try_fold(f.module, st.value)
                 adv = v2 if okc else None
-        return toks, adv
+        # fixed-offset reads are independent of each other: compare them in wire order, not statement order
+        return sorted(toks, key=lambda t: t[2]), adv
 
     rq, adv_q = read_frame(prog.func(INC + '._read_questions'), 4)
     obs.append(ob(R, prog.func(INC + '._read_questions'), f'reads {rq}, advances {adv_q}', 'question: name, type@0, class@2, 4 bytes', [(t, f) for t, f, _ in rq] == [('NAME', 'name'), ('U16', 'type'), ('U16', 'class')] and [o for _, _, o in rq] == [-1, 0, 2] and adv_q == 4))
